@@ -1,5 +1,6 @@
 """C03 — a typed symbolic value always satisfies its declared schema."""
 import collections
+import contextlib
 import copy
 
 import pyglove as pg
@@ -50,18 +51,28 @@ NESTED_KINDS = ('ReqHolder', 'ReqHolder', 'ReqTop', 'ReqTop', 'ReqMid', 'ReqMid'
                 'HolderDict', 'EmptyDict', 'MidList')
 
 
+# Numeric bounds: lower <= upper for every pair; 0 / 0.0 / -0.0 are bounds of
+# their own on both sides. Regular expressions: full-string patterns over the
+# alphabet of the shared string values (the first accepts all of them).
+INT_LO = [None, None, 0, -2, -1]
+INT_HI = [None, 0, 0, 5, 9]
+FLOAT_LO = [None, None, 0.0, -0.0, -1.5]
+FLOAT_HI = [None, 0.0, -0.0, 1.0, 4.0]
+REGEXES = [r'[a-z.<>]*$', r'[a-z]*$', r'.+$']
+
+
 def rand_spec(rng, depth=0):
   r = rng.random()
   if depth >= 2 or r < 0.45:
     k = rng.choice(['int', 'int', 'float', 'str', 'enum', 'bool', 'any', 'union', 'obj',
                     'objreq', 'empty'])
     if k == 'int':
-      lo = rng.choice([None, 0, -2]); hi = rng.choice([None, 5, 9])
-      s = T.Int(min_value=lo, max_value=hi)
+      # bounds include the boundary value 0 on either side (and on both)
+      s = T.Int(min_value=rng.choice(INT_LO), max_value=rng.choice(INT_HI))
     elif k == 'float':
-      s = T.Float(min_value=rng.choice([None, 0.0]), max_value=rng.choice([None, 1.0, 4.0]))
+      s = T.Float(min_value=rng.choice(FLOAT_LO), max_value=rng.choice(FLOAT_HI))
     elif k == 'str':
-      s = T.Str()
+      s = T.Str(regex=rng.choice(REGEXES)) if rng.random() < 0.35 else T.Str()
     elif k == 'enum':
       s = T.Enum('a', ['a', 'b', 3])
     elif k == 'bool':
